@@ -545,6 +545,38 @@ pub fn c17_shutdown(cx: &mut Ctx) {
                 }
                 all_gone_us = all_gone_us.max(end_us);
             }
+            "mid_batch" => {
+                // Between Parse/Bind/Execute and Sync at the signal: no transaction is in progress
+                // on any server, so PgCat may send it away at once or let the batch run; either
+                // way it is told to go, and is not kept until the timeout.
+                if session {
+                    // holds its server for the whole session once it has run something
+                    if c.steps.iter().filter(|s| s.op == "send").next().map(|s| matches!(s.outcome, StepOutcome::Ready(_)) && s.done_us + 1_000 < sig.1).unwrap_or(false) && c.steps.iter().any(|s| s.op == "hold") {
+                        someone_outlives_timeout = true;
+                    }
+                    continue;
+                }
+                // (judged only if its Parse/Bind/Execute were out before the signal)
+                let first_part_out = c.steps.iter().filter(|s| s.op == "send").nth(1).map(|s| s.done_us + 1_000 < sig.1).unwrap_or(false);
+                if c.auth_result != "ok" || !first_part_out {
+                    continue;
+                }
+                cx.probe("c17_client_between_batch_messages_at_signal");
+                let told = c.steps.iter().any(|s| s.msgs.iter().any(|m| m.ty == b'E' && proto::error_fields(&m.body).get(&'M').map(|x| x.contains(admin_msg)).unwrap_or(false)));
+                if let Some(hs) = c.steps.iter().find(|s| s.op == "hold") {
+                    let idle_from = hs.start_us.max(sig.1);
+                    if hs.done_us > idle_from + slack + 20_000 {
+                        cx.v("C17", "idle_client_not_disconnected", "C17/client_between_batch_messages_kept_after_sigint", hs.done_seq, format!("client {} was between the messages of a batch at SIGINT ({} ms); its batch ended at {} ms and it stayed connected and idle until {} ms (told: {}; exit at {} ms)", c.id, sig.1 / 1000, hs.start_us / 1000, hs.done_us / 1000, told, exit_us / 1000));
+                    } else if !told && hs.done_us + 5_000 < exit_us {
+                        cx.v("C17", "idle_client_not_notified", "C17/idle_client_closed_without_error", hs.done_seq, format!("client {} became idle after its batch and was disconnected without the administrator-command error", c.id));
+                    }
+                } else if !told && end_us + 5_000 < exit_us && c.steps.last().map(|s| s.outcome == StepOutcome::Closed("eof".into())).unwrap_or(false) {
+                    // (a client that wrote its Sync into a connection PgCat had already closed gets
+                    // a reset, which discards the error message on its way: nothing to judge)
+                    cx.v("C17", "idle_client_not_notified", "C17/idle_client_closed_without_error", c.connect_seq, format!("client {} (between the messages of a batch at SIGINT) was disconnected at {} ms without the administrator-command error", c.id, end_us / 1000));
+                }
+                all_gone_us = all_gone_us.max(end_us);
+            }
             "arrival" => {
                 if c.connect_us + 5_000 < exit_us && c.connected {
                     cx.probe("c17_new_client_during_shutdown");
